@@ -61,6 +61,14 @@ fn family_num(f: AddressFamily) -> u8 {
     }
 }
 
+/// a caller-side type that is `AsRef<IpAddr>` (std's own IpAddr is not), for the constructor route "family of an address"
+pub struct AddrRef(pub std::net::IpAddr);
+impl AsRef<std::net::IpAddr> for AddrRef {
+    fn as_ref(&self) -> &std::net::IpAddr {
+        &self.0
+    }
+}
+
 pub fn lib_alg(a: &RAlg) -> Algorithm {
     if a.params.is_empty() {
         Algorithm::from(AlgorithmId::from(a.id))
@@ -184,8 +192,19 @@ pub fn to_lib(a: &RAttr) -> Result<StunAttribute, String> {
             _ => Data::from(d.clone()),
         }
         .into(),
-        RAttr::RequestedAddressFamily(f) => RequestedAddressFamily::new(family(*f)?).into(),
-        RAttr::AdditionalAddressFamily(f) => AdditionalAddressFamily::new(family(*f)?).into(),
+        // three routes: new(family), From<AddressFamily>, and From<T: AsRef<IpAddr>> (the family of an address)
+        RAttr::RequestedAddressFamily(f) => match *f {
+            1 => RequestedAddressFamily::new(family(*f)?),
+            2 => RequestedAddressFamily::from(AddrRef(std::net::IpAddr::V6(std::net::Ipv6Addr::LOCALHOST))),
+            _ => RequestedAddressFamily::new(family(*f)?),
+        }
+        .into(),
+        RAttr::AdditionalAddressFamily(f) => match *f {
+            1 => AdditionalAddressFamily::from(AddrRef(std::net::IpAddr::V4(std::net::Ipv4Addr::LOCALHOST))),
+            2 => AdditionalAddressFamily::from(AddrRef(std::net::IpAddr::V6(std::net::Ipv6Addr::UNSPECIFIED))),
+            _ => AdditionalAddressFamily::new(family(*f)?),
+        }
+        .into(),
         RAttr::EvenPort(r) => if *r { EvenPort::new(*r) } else { EvenPort::from(*r) }.into(),
         RAttr::DontFragment => DontFragment::default().into(),
         RAttr::RequestedTransport(p) => match *p {
